@@ -601,6 +601,45 @@ b('benign_extract_target_test', SU + 'node/algo/dfs.rs', """    fn recurse_adjac
                         if self.is_target(&v) {
                             return true;
                         }""")
+b('benign_extract_disconnect_helper', SD + 'node/mod.rs', """    pub fn disconnect(&self, other: &K) -> Result<E, Error> {
+        match self.find_outbound(other) {
+            Some(other) => {
+                // The lock on `self` must be released before `other` is
+                // locked: `other` may be `self` (self-loop), and two threads
+                // may disconnect in opposite directions.
+                let removed = self.inner.2.write().unwrap().remove_outbound(other.key());
+                match removed {
+                    Ok(edge) => {
+                        other.inner.2.write().unwrap().remove_inbound(self.key())?;
+                        Ok(edge)
+                    }
+                    Err(_) => Err(Error::EdgeNotFound),
+                }
+            }
+            None => Err(Error::EdgeNotFound),
+        }
+    }
+""", """    pub fn disconnect(&self, other: &K) -> Result<E, Error> {
+        match self.find_outbound(other) {
+            Some(other) => self.remove_pair(&other),
+            None => Err(Error::EdgeNotFound),
+        }
+    }
+
+    /// Removes the first edge `self -> other` from both endpoints.
+    fn remove_pair(&self, other: &Self) -> Result<E, Error> {
+        // The lock on `self` must be released before `other` is locked:
+        // `other` may be `self` (self-loop).
+        let removed = self.inner.2.write().unwrap().remove_outbound(other.key());
+        match removed {
+            Ok(edge) => {
+                other.inner.2.write().unwrap().remove_inbound(self.key())?;
+                Ok(edge)
+            }
+            Err(_) => Err(Error::EdgeNotFound),
+        }
+    }
+""")
 b('benign_scc_reversed_iteration', D + 'mod.rs', """        while let Some(node) = ordering.pop() {
             if !invariant.contains(node.key()) {""", """        ordering.reverse();
         for node in ordering {
